@@ -395,7 +395,7 @@ var skipInitPrefixes = []string{
 	"github.com/google/flatbuffers", "google.golang.org/protobuf", "github.com/gogo/protobuf", "github.com/golang/protobuf",
 	"google.golang.org/grpc", "net", "crypto", "encoding/json", "testing", "log", "text/template", "html/template",
 	"golang.org/x/sys", "golang.org/x/net", "go.uber.org/zap", "go.uber.org/multierr", "internal/bisect",
-	"math/rand", "internal/chacha8rand", "hash/crc32", "vendor", "go.opentelemetry.io/otel/sdk", "encoding/gob",
+	"github.com/open-telemetry/otel-arrow/api", "math/rand", "internal/chacha8rand", "hash/crc32", "vendor", "go.opentelemetry.io/otel/sdk", "encoding/gob",
 }
 
 var _ = ssa.NewProgram
